@@ -45,6 +45,7 @@ def run_crate(repo, crate, units, jobs, log_dir):
     if os.path.exists(out_json): os.remove(out_json)
     # generous floor: a timeout is 'undecided' (exit 2), which must never happen on the unchanged tree of a loaded machine
     timeout = max([u['timeout'] for u in units] + [int(os.environ.get('VERIF_MIN_TIMEOUT', '1200' if os.path.realpath(repo) == '/repo' else '0'))])
+    if os.environ.get('VERIF_MAX_TIMEOUT'): timeout = min(timeout, int(os.environ['VERIF_MAX_TIMEOUT']))
     cmd = ['cargo', 'kani', '-p', crate, '--lib', '-Z', 'stubbing', '-Z', 'unstable-options',
            '--output-format=terse', '--target-dir', target_dir(repo), '--export-json', out_json,
            '--harness-timeout', '%ds' % timeout, '-j', str(jobs), '--exact']
